@@ -125,7 +125,13 @@ pub enum SOp {
     HasNews { n: usize, heads: Vec<(usize, u64)> },
     Reopen,
     /// C18: close the file store, delete derived tables with plain redb, open it again
-    DropDerived { latest: bool, by_key: bool },
+    DropDerived {
+        latest: bool,
+        by_key: bool,
+        /// also move the write capabilities into the first-generation table `namespaces-1`
+        #[serde(default)]
+        v1: bool,
+    },
     /// observe everything observable about document `n`
     Observe { n: usize },
     ObserveAll,
@@ -470,13 +476,13 @@ impl<'a> StoreWorld<'a> {
                     self.lines.push(Line::oracle(format!("shasnews 1 {} {}", self.nshex(*n), heads_tok(&toks)), imp));
                 }
             }
-            SOp::DropDerived { latest, by_key } => {
+            SOp::DropDerived { latest, by_key, v1 } => {
                 if let Some(f) = &self.rs.file {
                     self.rs.store.flush()?;
                     let old = std::mem::replace(&mut self.rs.store, iroh_docs::store::Store::memory());
                     drop(old);
                     {
-                        use redb::TableHandle;
+                        use redb::{ReadableTable, TableHandle};
                         let db = redb::Database::create(f.path())?;
                         let tx = db.begin_write()?;
                         let names: Vec<String> = tx.list_tables()?.map(|h| h.name().to_string()).collect();
@@ -486,6 +492,30 @@ impl<'a> StoreWorld<'a> {
                             }
                         }
                         let _ = names;
+                        if *v1 {
+                            // a database from before `namespaces-2`: id -> secret for the write capabilities
+                            const V1: redb::TableDefinition<&[u8; 32], &[u8; 32]> = redb::TableDefinition::new("namespaces-1");
+                            const V2: redb::TableDefinition<&[u8; 32], (u8, &[u8; 32])> = redb::TableDefinition::new("namespaces-2");
+                            let mut moved: Vec<([u8; 32], [u8; 32])> = vec![];
+                            {
+                                let t2 = tx.open_table(V2)?;
+                                for row in t2.iter()? {
+                                    let (k, v) = row?;
+                                    let (kind, bytes) = v.value();
+                                    if kind == 1 {
+                                        moved.push((*k.value(), *bytes));
+                                    }
+                                }
+                            }
+                            {
+                                let mut t2 = tx.open_table(V2)?;
+                                let mut t1 = tx.open_table(V1)?;
+                                for (id, secret) in &moved {
+                                    t2.remove(id)?;
+                                    t1.insert(id, secret)?;
+                                }
+                            }
+                        }
                         tx.commit()?;
                     }
                     self.rs.store = iroh_docs::store::Store::persistent(f.path())?;
@@ -495,7 +525,7 @@ impl<'a> StoreWorld<'a> {
                             self.lines.push(Line::model(format!("tclose 1 {}", self.nshex(n)), "ok"));
                         }
                     }
-                    self.lines.push(Line::model(format!("tmigrate 1 {} {}", *latest as u8, *by_key as u8), "ok"));
+                    self.lines.push(Line::model(format!("tmigrate 1 {} {}{}", *latest as u8, *by_key as u8, if *v1 { " v1" } else { "" }), "ok"));
                 }
             }
             SOp::Reopen => {
